@@ -18,6 +18,7 @@ import (
 	enginefactory "github.com/projecteru2/core/engine/factory"
 	"github.com/projecteru2/core/store"
 	"github.com/projecteru2/core/store/etcdv3"
+	"github.com/projecteru2/core/store/etcdv3/embedded"
 	redisstore "github.com/projecteru2/core/store/redis"
 	coretypes "github.com/projecteru2/core/types"
 	"github.com/projecteru2/core/utils"
@@ -66,7 +67,48 @@ func newBackends(t *testing.T) *backends {
 	if err != nil {
 		t.Fatal(err)
 	}
+	// every request to the embedded etcd passes through envKV: a request the server itself failed (timed out under
+	// load) makes the input during which it happened unjudgeable (vt.EnvFailedSince)
+	cli := embedded.NewCluster(t, cfg.Etcd.Prefix).RandClient()
+	if _, ok := cli.KV.(*envKV); !ok {
+		cli.KV = &envKV{KV: cli.KV}
+	}
 	return &backends{etcd: e, redis: r, mr: mr, cfg: cfg}
+}
+
+type envKV struct{ clientv3.KV }
+
+func (k *envKV) Get(ctx context.Context, key string, opts ...clientv3.OpOption) (*clientv3.GetResponse, error) {
+	r, err := k.KV.Get(ctx, key, opts...)
+	vt.NoteErr(err)
+	return r, err
+}
+func (k *envKV) Put(ctx context.Context, key, val string, opts ...clientv3.OpOption) (*clientv3.PutResponse, error) {
+	r, err := k.KV.Put(ctx, key, val, opts...)
+	vt.NoteErr(err)
+	return r, err
+}
+func (k *envKV) Delete(ctx context.Context, key string, opts ...clientv3.OpOption) (*clientv3.DeleteResponse, error) {
+	r, err := k.KV.Delete(ctx, key, opts...)
+	vt.NoteErr(err)
+	return r, err
+}
+func (k *envKV) Do(ctx context.Context, op clientv3.Op) (clientv3.OpResponse, error) {
+	r, err := k.KV.Do(ctx, op)
+	vt.NoteErr(err)
+	return r, err
+}
+func (k *envKV) Txn(ctx context.Context) clientv3.Txn { return &envTxn{Txn: k.KV.Txn(ctx)} }
+
+type envTxn struct{ clientv3.Txn }
+
+func (t *envTxn) If(cs ...clientv3.Cmp) clientv3.Txn   { t.Txn = t.Txn.If(cs...); return t }
+func (t *envTxn) Then(ops ...clientv3.Op) clientv3.Txn { t.Txn = t.Txn.Then(ops...); return t }
+func (t *envTxn) Else(ops ...clientv3.Op) clientv3.Txn { t.Txn = t.Txn.Else(ops...); return t }
+func (t *envTxn) Commit() (*clientv3.TxnResponse, error) {
+	r, err := t.Txn.Commit()
+	vt.NoteErr(err)
+	return r, err
 }
 
 // newRedisOnly: another miniredis + Rediaron next to the shared etcd store.
@@ -378,6 +420,7 @@ func TestStoreDiff(t *testing.T) {
 	forEachWorker(t, func(w int, be *backends, nm names) {
 		ctx := context.Background()
 		for j := range ch {
+			mark := vt.EnvMark()
 			be.wipe(ctx, nm)
 			evs := []map[string]any{{"ev": "StoreRun", "run": j.run, "snapE": snapshot(ctx, be.etcd, nm), "snapR": snapshot(ctx, be.redis, nm)}}
 			for _, op := range j.ops {
@@ -385,6 +428,9 @@ func TestStoreDiff(t *testing.T) {
 				cr := apply(ctx, be.redis, nm, op)
 				evs = append(evs, map[string]any{"ev": "StoreOp", "op": op, "classE": ce, "classR": cr,
 					"snapE": snapshot(ctx, be.etcd, nm), "snapR": snapshot(ctx, be.redis, nm)})
+			}
+			if vt.EnvFailedSince(mark) {
+				continue
 			}
 			flush.Lock()
 			for _, ev := range evs {
